@@ -14,7 +14,7 @@ from ..engine import Verdict, guarded
 ID = "C14"
 RULE = (
     "Model = the result of an isolated fresh run that requests one observable at one kinematic point. Hypothesis draws a "
-    "theory (scheme, PTO 0-2, TMC in {0,1,2,3}, scale variations), a pool of 2-5 kinematic points built to collide with "
+    "theory (scheme, PTO 0-2, TMC in {0,1,2,3}, scale variations), a target (proton, neutron, iron, lead, isoscalar, generated Z/A), a pool of 2-5 kinematic points built to collide with "
     "the internal caches (repeated Q2 values, x on grid nodes, x equal to the Nachtmann xi of another point, x equal to a "
     "Q2 value, duplicates, both key orders of the kinematics dict) and a history: an ordered list of observables sharing "
     "caches (F2/FL/F3 of one or two heavynesses and the cross sections built from them), each with an ordered list of "
@@ -28,7 +28,7 @@ ASSUMPTIONS = [
 ]
 BUDGET = {"quick": {"examples": 800, "wall": 420, "min_evaluations": 200}, "thorough": {"examples": 6000, "wall": 3300, "min_evaluations": 1500}}
 MANDATORY = {
-    t: ["nontrivial", "tmc:on", "tmc:off", "xs", "duplicate-point", "repeated-q2", "rerun", "x-is-xi", "x-on-node", "two-heavyness", "key-order:Q2-first"]
+    t: ["nontrivial", "tmc:on", "tmc:off", "target:other", "process:CC", "xs", "duplicate-point", "repeated-q2", "rerun", "x-is-xi", "x-on-node", "two-heavyness", "key-order:Q2-first"]
     for t in ("quick", "thorough")
 }
 SHRINK = {"quick": False, "thorough": True}
@@ -49,6 +49,15 @@ def cases(draw, tier="quick"):
     proj = draw(st.sampled_from(["electron", "positron"] if process == "EM" else cards.PROJECTILES))
     ob = cards.observables(prDIS=process, ProjectileDIS=proj)
     cards.apply_grid(ob, grid)
+    # targets other than the proton make the in-place isospin rotation of kernel weights observable: shared or memoised
+    # weights between the evaluations of one history show up only there (seeded change C14-lru-cache)
+    tgt = draw(st.sampled_from(["proton", "neutron", "iron", "lead", "isoscalar", "ZA"]))
+    if tgt == "ZA":
+        a = round(draw(st.floats(1.0, 240.0)), 3)
+        tgt = {"Z": round(draw(st.floats(0.0, 1.0)) * a, 3), "A": a}
+    ob["TargetDIS"] = tgt
+    if process != "CC" and draw(st.integers(0, 3)) == 0:
+        ob["NCPositivityCharge"] = draw(st.sampled_from(["up", "down", "charm"]))
     g = grid["xgrid"]
     # pool of points
     q2s = [draw(cards.q2_values(2.0, 300.0)) for _ in range(draw(st.integers(1, 3)))]
@@ -134,6 +143,7 @@ def check_case(case):
     run._silence()
     th, ob, pool, plan = case["theory"], case["obs"], case["pool"], case["plan"]
     v.label("tmc:on" if th["TMC"] else "tmc:off", f"tmc:{th['TMC']}", f"scheme:{case['meta']['scheme']}", f"pto:{th['PTO']}")
+    v.label("target:proton" if ob["TargetDIS"] == "proton" else "target:other", f"process:{case['meta']['process']}")
     o = copy.deepcopy(ob)
     o["observables"] = {n: [kin_of(n, pool[i], case["q2first"]) for i in idx] for n, idx in plan}
     if case["q2first"]:
